@@ -572,6 +572,12 @@ impl Pool for PoolImpl {
             .parent_ready_tracker
             .handle_finalization(finalization_event);
         self.send_parent_ready_events(new_parents_ready).await;
+        // the new parent link may have finalized ancestors and advanced the watermark
+        self.prune();
+        // blocks of already decided (pruned) slots need no further tracking
+        if *slot < self.first_unpruned_slot() {
+            return;
+        }
 
         self.slot_state(*slot).notify_parent_known(block_hash);
         if let Some(parent_state) = self.slot_states.get(parent_slot)
